@@ -2,7 +2,8 @@
 //
 // What is executed: real install / upgrade / rollback / uninstall histories against the simulated
 // API server with generated hook sets (0-4 hooks per lifecycle event and chart version, hooks bound
-// to several events; weights negative / equal / non-numeric / absent; hook names whose order
+// to several events; pairs of hooks with the same kind and metadata.name in two namespaces (explicit
+// metadata.namespace), with equal or different weights and policies; weights negative / equal / non-numeric / absent; hook names whose order
 // differs from the order of the files that define them, sometimes two hooks per file; kinds
 // ConfigMap / Job / Pod / ServiceAccount; every subset of the three delete policies). Every history
 // is run once fault-free and then once per SINGLE hook failure: every hook create of every op
@@ -28,7 +29,8 @@
 //
 // Don't-care zones (deliberately unchecked): LastRun bookkeeping and release status after a hook
 // failure (C03); output-log policies; what uninstall does to hook objects of other events; the
-// relative order of two hooks with equal weight AND equal name (names are unique here); what
+// relative order of two hooks with equal weight AND equal name (only the namespace twins: both must be
+// created, awaited and deleted per policy, in either order); what
 // happens to the object of a hook whose create was rejected (incl. a 409 caused by a leftover
 // without before-hook-creation: that is a hook failure like any other); whether hooks of the same
 // post-event still run after a failed post-hook (the property only forbids it after a pre-hook);
@@ -68,7 +70,7 @@ func init() {
 	core.Register(&core.Prop{
 		ID:    "C12",
 		Level: "fault_enumeration",
-		Rule: "per hook-set seed: two chart versions with independently generated hook sets (0-4 hooks per event, multi-event hooks, weights incl. negative/equal/non-numeric, all 8 delete-policy subsets, 4 kinds, name order != file order) and one of 7 history shapes over install/upgrade/rollback/uninstall (some ops with hooks disabled, two shapes with atomic+no-hooks ops that are additionally run with a failing readiness wait), on memory and secrets storage; one fault-free run plus one run per single hook failure (each hook create rejected once, each hook readiness failing once) of every op; all ops of every run are judged. " +
+		Rule: "per hook-set seed: two chart versions with independently generated hook sets (0-4 hooks per event, multi-event hooks, same-kind same-name hook pairs in two namespaces, weights incl. negative/equal/non-numeric, all 8 delete-policy subsets, 4 kinds, name order != file order) and one of 7 history shapes over install/upgrade/rollback/uninstall (some ops with hooks disabled, two shapes with atomic+no-hooks ops that are additionally run with a failing readiness wait), on memory and secrets storage; one fault-free run plus one run per single hook failure (each hook create rejected once, each hook readiness failing once) of every op; all ops of every run are judged. " +
 			"distinct_nontrivial counts distinct (op kind, event, number of hooks in the event, failure kind, policy set of the failing hook, leftover-present) tuples among judged events that ran at least one hook.",
 		Assumptions: []string{
 			"the simulated API server applies requests like a real API server; its request log and the scripted waiter share one logical clock",
@@ -105,12 +107,14 @@ func genCases(seed int64, tier string) []core.Case {
 // ---------------------------------------------------------------- generator
 
 type hookDef struct {
-	Stem     string
-	Kind     string
-	Events   []string
-	Weight   string
-	Policies []string
-	File     int
+	Stem      string
+	Kind      string
+	Events    []string
+	Weight    string
+	Policies  []string
+	File      int
+	NS        string // explicit metadata.namespace ("" = none: the release namespace)
+	RevSuffix bool   // the name carries the revision (set when the hook, or its namespace twin, lacks before-hook-creation)
 }
 
 func (h hookDef) bhc() bool {
@@ -144,7 +148,7 @@ func (h hookDef) weight() int {
 // (except when a rollback re-runs the hooks of an old revision).
 func (h hookDef) name(renderRev int) string {
 	n := relName + "-hook-" + h.Stem
-	if !h.bhc() {
+	if h.RevSuffix {
 		n += fmt.Sprintf("-r%d", renderRev)
 	}
 	return n
@@ -185,6 +189,42 @@ func genChart(rng *rand.Rand, res [][3]string) chartSpec {
 			cs.Hooks = append(cs.Hooks, h)
 		}
 	}
+	for i := range cs.Hooks {
+		cs.Hooks[i].RevSuffix = !cs.Hooks[i].bhc()
+	}
+	// namespace twins: a second hook object with the same kind and metadata.name in another
+	// namespace (explicit metadata.namespace), bound to the same events, with the same or another
+	// weight / policy set. They are two distinct hooks.
+	if len(cs.Hooks) > 0 && rng.Intn(100) < 45 {
+		for k, n := 0, 1+rng.Intn(2); k < n; k++ {
+			j := rng.Intn(len(cs.Hooks))
+			if cs.Hooks[j].NS != "" {
+				continue
+			}
+			twin := cs.Hooks[j]
+			twin.Events = append([]string(nil), cs.Hooks[j].Events...)
+			twin.NS = "ns2"
+			if rng.Intn(2) == 0 {
+				cs.Hooks[j].NS = ns // explicit, equal to the release namespace
+			} else {
+				cs.Hooks[j].NS = "-" // none
+			}
+			if rng.Intn(2) == 0 {
+				twin.Weight = gen.Pick(rng, weights)
+			}
+			if rng.Intn(2) == 0 {
+				twin.Policies = gen.Pick(rng, policySets)
+			}
+			rs := !twin.bhc() || !cs.Hooks[j].bhc()
+			twin.RevSuffix, cs.Hooks[j].RevSuffix = rs, rs
+			cs.Hooks = append(cs.Hooks, twin)
+		}
+		for i := range cs.Hooks {
+			if cs.Hooks[i].NS == "-" {
+				cs.Hooks[i].NS = ""
+			}
+		}
+	}
 	// file layout: creation order decides the file, sometimes two hooks share a file
 	f := 0
 	for i := range cs.Hooks {
@@ -207,11 +247,15 @@ func (cs chartSpec) files(version int) gen.Files {
 	byFile := map[int][]string{}
 	for _, h := range cs.Hooks {
 		expr := "{{ .Release.Name }}-hook-" + h.Stem
-		if !h.bhc() {
+		if h.RevSuffix {
 			expr += "-r{{ .Release.Revision }}"
 		}
 		spec := gen.HookSpec{Name: h.Stem, Kind: h.Kind, Events: h.Events, Weight: h.Weight, Policies: h.Policies}
-		byFile[h.File] = append(byFile[h.File], spec.YAML(expr))
+		y := spec.YAML(expr)
+		if h.NS != "" {
+			y = strings.Replace(y, "metadata:\n", "metadata:\n  namespace: "+h.NS+"\n", 1)
+		}
+		byFile[h.File] = append(byFile[h.File], y)
 	}
 	for f, docs := range byFile {
 		out[fmt.Sprintf("templates/f%02d.yaml", f)] = strings.Join(docs, "---\n")
@@ -277,8 +321,18 @@ type revSrc struct{ Chart, RenderRev int }
 
 type inst struct {
 	Def  hookDef
-	Name string
+	Name string // identity within the op's trace: the object name, qualified "<namespace>:" outside the release namespace
+	Bare string // metadata.name
 	Key  string
+}
+
+// qualify is the identity used for hook objects in traces: requests outside the release
+// namespace carry their namespace.
+func qualify(namespace, name string) string {
+	if namespace == "" || namespace == ns {
+		return name
+	}
+	return namespace + ":" + name
 }
 
 func (s *setup) expected(src revSrc, event string) []inst {
@@ -288,7 +342,11 @@ func (s *setup) expected(src revSrc, event string) []inst {
 			if e == event {
 				n := h.name(src.RenderRev)
 				r := sim.FindKind(map[string]string{"ConfigMap": "v1", "Pod": "v1", "ServiceAccount": "v1", "Job": "batch/v1"}[h.Kind], h.Kind)
-				out = append(out, inst{Def: h, Name: n, Key: sim.Key(r.Group, r.Plural, ns, n)})
+				hns := ns
+				if h.NS != "" {
+					hns = h.NS
+				}
+				out = append(out, inst{Def: h, Name: qualify(hns, n), Bare: n, Key: sim.Key(r.Group, r.Plural, hns, n)})
 			}
 		}
 	}
@@ -296,7 +354,7 @@ func (s *setup) expected(src revSrc, event string) []inst {
 		if out[i].Def.weight() != out[j].Def.weight() {
 			return out[i].Def.weight() < out[j].Def.weight()
 		}
-		return out[i].Name < out[j].Name
+		return out[i].Bare < out[j].Bare
 	})
 	return out
 }
@@ -358,7 +416,7 @@ func traceOf(log []sim.Event, agent string) opTrace {
 			if e.Class != "mutation" {
 				continue
 			}
-			r := &req{recv: recv[e.N], done: e.Seq, method: e.Method, kind: e.Kind, name: e.Name, code: e.Code}
+			r := &req{recv: recv[e.N], done: e.Seq, method: e.Method, kind: e.Kind, name: qualify(e.NS, e.Name), code: e.Code}
 			if isHookName(e.Name) {
 				t.hookReqs = append(t.hookReqs, r)
 				if e.Method == "POST" {
@@ -405,6 +463,11 @@ func (t *opTrace) deletes200(name string, lo, hi int64) int {
 }
 
 func (t *opTrace) watchRet(name string, after int64) (sim.Event, bool) {
+	// waiter notes carry "Kind/name" without a namespace; hooks run one at a time, so the first
+	// return after the hook's own create is its own
+	if i := strings.Index(name, ":"); i >= 0 {
+		name = name[i+1:]
+	}
 	for _, e := range t.notes {
 		if e.What == "WatchUntilReady" && e.Note == "ret" && e.Seq > after {
 			for _, n := range e.Names {
@@ -505,6 +568,17 @@ func (s *setup) judgeOp(res *core.Result, w *env.World, in judgeIn, detail func(
 			}
 			p := t.hookPosts[pi]
 			if p.name != h.Name {
+				// namespace twins with equal weight tie on (weight, name): the property fixes no order between them
+				for j := i + 1; j < len(hs); j++ {
+					if hs[j].Name == p.name && hs[j].Bare == h.Bare && hs[j].Def.weight() == h.Def.weight() {
+						hs[i], hs[j] = hs[j], hs[i]
+						h = hs[i]
+						involved[h.Name] = h
+						break
+					}
+				}
+			}
+			if p.name != h.Name {
 				cls := ev + " | a hook that is not bound to the event"
 				for _, o := range hs {
 					if o.Name == p.name {
@@ -516,6 +590,16 @@ func (s *setup) judgeOp(res *core.Result, w *env.World, in judgeIn, detail func(
 					}
 				}
 				clause := "hook-order"
+				later := false
+				for _, q := range t.hookPosts[pi:] {
+					later = later || q.name == h.Name
+				}
+				if !later && !strings.HasSuffix(cls, "not bound to the event") {
+					// the expected hook is skipped altogether, the op went on with a later one
+					res.Add("hook-not-run", ev, "%s hook %s/%s (weight %q, policies %s) was never created; expected order %s, observed creates %s | %s", ev, h.Def.Kind, h.Name, h.Def.Weight, polString(h.Def), instNames(hs), postNames(t.hookPosts), detail())
+					aborted = true
+					break
+				}
 				if strings.HasSuffix(cls, "not bound to the event") {
 					clause = "unexpected-hook-run"
 				}
@@ -619,7 +703,16 @@ func (s *setup) judgeOp(res *core.Result, w *env.World, in judgeIn, detail func(
 		if failing != nil {
 			fk, fp = failedAt, polString(failing.Def)
 		}
-		res.Key("%s|%s|n=%d|fail=%s|%s|leftover=%v", op.Kind, ev, len(hs), fk, fp, leftover)
+		twins := false
+		for a := range hs {
+			for b := a + 1; b < len(hs); b++ {
+				twins = twins || hs[a].Bare == hs[b].Bare
+			}
+		}
+		if twins && failing == nil {
+			res.Stat("events_with_namespace_twins_all_run", 1)
+		}
+		res.Key("%s|%s|n=%d|fail=%s|%s|leftover=%v|twins=%v", op.Kind, ev, len(hs), fk, fp, leftover, twins)
 		res.Stat("events_with_hooks_judged", 1)
 	}
 	if aborted {
@@ -901,7 +994,7 @@ func run(c core.Case, verbose bool) core.Result {
 
 func post(a *core.Agg) string {
 	var miss []string
-	for _, k := range []string{"hook_creates_ordered", "hook_completions_observed", "delete_policy_decisions_checked", "leftovers_met_by_before_hook_creation", "failed_pre_hooks_gate_checked", "failed_post_hooks_checked", "ops_with_hooks_disabled_checked", "failed_atomic_ops_with_hooks_disabled_checked:upgrade", "failed_atomic_ops_with_hooks_disabled_checked:install", "hook_failures_judged:create", "hook_failures_judged:ready", "hook_object_end_states_compared"} {
+	for _, k := range []string{"hook_creates_ordered", "hook_completions_observed", "delete_policy_decisions_checked", "leftovers_met_by_before_hook_creation", "failed_pre_hooks_gate_checked", "failed_post_hooks_checked", "ops_with_hooks_disabled_checked", "failed_atomic_ops_with_hooks_disabled_checked:upgrade", "failed_atomic_ops_with_hooks_disabled_checked:install", "hook_failures_judged:create", "hook_failures_judged:ready", "hook_object_end_states_compared", "events_with_namespace_twins_all_run"} {
 		if a.Stats[k] == 0 {
 			miss = append(miss, k)
 		}
